@@ -2,11 +2,17 @@ package main
 
 // encoding/json as used by the bridge hook's metadata probe (C19), as assumed contracts (A-JSON): decoding is a pure
 // partial function of the input bytes, of the target type and of the decoder's strictness.
+// json.Unmarshal validates the WHOLE input (one JSON value, nothing but white space after it); Decoder.Decode reads
+// the FIRST JSON value and ignores what follows. They are different functions:
 //   json.Unmarshal(b, &m) with m a map[string]interface{}:  m = jsonObj(b),            err == nil iff jsonObjOK(b)
+//   dec.Decode(&m)                                          m = jsonFirstObj(b),       err == nil iff jsonFirstObjOK(b)
 //   json.Unmarshal(b, &v) with v of type T:                 v = jsonLenient_T(b),      err == nil iff jsonLenientOK_T(b)
 //   dec := json.NewDecoder(strings.NewReader(s)); dec.DisallowUnknownFields(); dec.Decode(&v):
 //                                                           v = jsonStrict_T(s),       err == nil iff jsonStrictOK_T(s)
-//   (without DisallowUnknownFields the lenient functions are used)
+//   dec.Decode(&v) without DisallowUnknownFields:           v = jsonFirstLenient_T(s), err == nil iff jsonFirstLenientOK_T(s)
+// Relations assumed: a whole-input object is also a first-value object with the same content; what the strict
+// decoder accepts the lenient decoder of the first value accepts with the same result; and on an input that IS one whole
+// JSON object (jsonObjOK) strict acceptance implies lenient whole-input acceptance with the same result.
 // On failure the target holds an arbitrary value of its type.
 
 import (
@@ -28,7 +34,7 @@ func typeTag(t types.Type) string {
 	return sanitize(s)
 }
 
-func (x *Exec) jsonDecodeInto(c *CallCtx, src string, target Value, strictT string) TV {
+func (x *Exec) jsonDecodeInto(c *CallCtx, src string, target Value, strictT string, whole bool) TV {
 	e := x.enc
 	if iv, ok := target.(IfaceV); ok {
 		target = iv.V
@@ -46,6 +52,12 @@ func (x *Exec) jsonDecodeInto(c *CallCtx, src string, target Value, strictT stri
 		s := e.Sort(back.Ty)
 		f := e.DeclFun("jsonObj", []string{"Bytes"}, s)
 		okf := e.DeclFun("jsonObjOK", []string{"Bytes"}, "Bool")
+		ff := e.DeclFun("jsonFirstObj", []string{"Bytes"}, s)
+		fok := e.DeclFun("jsonFirstObjOK", []string{"Bytes"}, "Bool")
+		e.Axiom(fmt.Sprintf("(forall ((b Bytes)) (! (=> (%s b) (and (%s b) (= (%s b) (%s b)))) :pattern ((%s b))))", okf, fok, ff, f, okf))
+		if !whole {
+			f, okf = ff, fok
+		}
 		fresh := x.freshTV("jsonjunk", back.Ty, c.st)
 		c.st.cells[mr.Cell] = TV{T: ite(app(okf, src), app(f, src), fresh.T), Ty: back.Ty}
 		c.st.Assume(eq(eq(errT, "0"), app(okf, src)))
@@ -60,8 +72,17 @@ func (x *Exec) jsonDecodeInto(c *CallCtx, src string, target Value, strictT stri
 	s := e.Sort(tv.Ty)
 	lf, lok := e.DeclFun("jsonLenient_"+tag, []string{"Bytes"}, s), e.DeclFun("jsonLenientOK_"+tag, []string{"Bytes"}, "Bool")
 	sf, sok := e.DeclFun("jsonStrict_"+tag, []string{"Bytes"}, s), e.DeclFun("jsonStrictOK_"+tag, []string{"Bytes"}, "Bool")
-	// strict decoding accepts a subset of what lenient decoding accepts and agrees with it there
-	e.Axiom(fmt.Sprintf("(forall ((b Bytes)) (! (=> (%s b) (and (%s b) (= (%s b) (%s b)))) :pattern ((%s b))))", sok, lok, sf, lf, sok))
+	flf, flok := e.DeclFun("jsonFirstLenient_"+tag, []string{"Bytes"}, s), e.DeclFun("jsonFirstLenientOK_"+tag, []string{"Bytes"}, "Bool")
+	wok := e.DeclFun("jsonObjOK", []string{"Bytes"}, "Bool")
+	// strict decoding of the first value accepts a subset of what lenient decoding of the first value accepts and agrees with it there
+	e.Axiom(fmt.Sprintf("(forall ((b Bytes)) (! (=> (%s b) (and (%s b) (= (%s b) (%s b)))) :pattern ((%s b))))", sok, flok, sf, flf, sok))
+	// ... and on an input that is one whole JSON object also with lenient whole-input decoding (json.Unmarshal)
+	e.Axiom(fmt.Sprintf("(forall ((b Bytes)) (! (=> (and (%s b) (%s b)) (and (%s b) (= (%s b) (%s b)))) :pattern ((%s b) (%s b))))", wok, sok, lok, sf, lf, wok, sok))
+	if !whole {
+		lf, lok = flf, flok
+	} else if strictT != "false" {
+		x.fail("strict whole-input json decoding is not modelled")
+	}
 	okT := ite(strictT, app(sok, src), app(lok, src))
 	valT := ite(strictT, app(sf, src), app(lf, src))
 	fresh := x.freshTV("jsonjunk", tv.Ty, c.st)
@@ -103,9 +124,9 @@ func init() {
 			return nil
 		}
 		strict := term(c.st.cells[d.Cell])
-		return c.ret(c.x.jsonDecodeInto(c, d.S, c.args[1], strict))
+		return c.ret(c.x.jsonDecodeInto(c, d.S, c.args[1], strict, false))
 	})
 	reg("encoding/json.Unmarshal", "json.Unmarshal(b, &v) decodes b into v leniently: a pure partial function of the bytes and the target type (A-JSON)", func(c *CallCtx) []Outcome {
-		return c.ret(c.x.jsonDecodeInto(c, c.t(0), c.args[1], "false"))
+		return c.ret(c.x.jsonDecodeInto(c, c.t(0), c.args[1], "false", true))
 	})
 }
